@@ -1,7 +1,7 @@
 #!/bin/bash
 # usage: tools/run_all.sh [quick|thorough] [seed]   — runs every claimed check on /repo's current tree
 tier="${1:-quick}"; seed="${2:-1}"
-cd /verif
+cd "$(dirname "$0")/.."
 fail=0
 for id in $(cat implemented.txt); do
   t0=$(date +%s)
